@@ -9,7 +9,7 @@ import (
 // itself a function of (VERIF_SEED, property, case index).
 
 var fieldPool = [][]byte{[]byte("_id"), []byte("a"), []byte("b"), []byte("cc"), []byte("name"),
-	[]byte("_all"), {0x00, 'z'}, []byte("zz"), {0xc3, 0xa9}, []byte("_ie")}
+	[]byte("_all"), {0x00, 'z'}, []byte("zz"), {0xc3, 0xa9}, []byte("_ie"), []byte("nam"), []byte("_i")}
 
 var termPool = [][]byte{{}, []byte("a"), []byte("b"), []byte("ab"), []byte("abc"), {'b', 0x00},
 	{0x00}, []byte("wh"), []byte("x"), {0xff}, {'a', 0xff}, []byte("zzzz"), {0x01, 0x80}, []byte("aa")}
@@ -82,7 +82,7 @@ func genUniverse(r *Rng) *Universe {
 	u.hugeFreq = r.Chance(1, 12)
 	if r.Chance(1, 9) {
 		// a long term: its length (and the doc-value bytes of its documents) need a two-byte varint
-		n := []int{127, 128, 130, 300}[r.Intn(4)]
+		n := []int{127, 128, 130, 300, 5000}[r.Intn(5)]
 		t := make([]byte, n)
 		for i := range t {
 			t[i] = byte('a' + r.Intn(20))
@@ -159,6 +159,9 @@ func (u *Universe) genDoc(r *Rng, o docOpts) Doc {
 		d = append(d, f)
 	}
 	ni := r.Intn(o.maxInst + 1)
+	if r.Chance(1, 90) {
+		ni = r.Range(50, 70) // dozens of values of the same few fields in one document
+	}
 	for i := 0; i < ni; i++ {
 		name := fields[r.Intn(len(fields))]
 		f := FieldInst{Name: name}
@@ -172,7 +175,7 @@ func (u *Universe) genDoc(r *Rng, o docOpts) Doc {
 					f.Value = randBytes(r, r.Range(20, 90))
 				} else if r.Chance(1, 6) {
 					// value lengths at which the length varint grows
-					f.Value = randBytes(r, []int{127, 128, 129, 300, 16384, 17000}[r.Intn(6)])
+					f.Value = randBytes(r, []int{127, 128, 129, 300, 16384, 17000, 200000}[r.Intn(7)])
 				} else {
 					f.Value = randBytes(r, r.Range(7, 12))
 				}
@@ -191,7 +194,7 @@ func (u *Universe) genDoc(r *Rng, o docOpts) Doc {
 			if r.Chance(1, 2) && !u.hugeFreq {
 				nl = r.Range(1, 3)
 				if r.Chance(1, 60) {
-					nl = []int{32, 43, 127, 128, 140}[r.Intn(5)] // location counts / byte counts past one varint byte
+					nl = []int{32, 43, 127, 128, 140, 1100}[r.Intn(6)] // location counts / byte counts past one (two) varint bytes
 				}
 			}
 			for k := 0; k < nl; k++ {
@@ -288,6 +291,14 @@ func (u *Universe) genBatch(r *Rng, n int, o docOpts, idPrefix string) []Doc {
 			oo.idTerm = []byte(fmt.Sprintf("%s%d", idPrefix, i))
 		}
 		docs[i] = u.genDoc(r, oo)
+	}
+	// completely empty documents at the start, the end and around block / chunk boundaries
+	if n >= 2 && r.Chance(1, 4) {
+		for _, p := range []int{0, n - 1, n / 2, 126, 127, 128, 129, 1023, 1024, 1025} {
+			if p < n && r.Chance(1, 2) {
+				docs[p] = Doc{}
+			}
+		}
 	}
 	fixLocs(docs)
 	return docs
